@@ -22,6 +22,21 @@ func C04() int {
 		l.T = &jt.Tag{Role: jt.Keep}
 		items = append(items, rawItem("other", l, i))
 	}
+	// lines of other components that ECHO a command document (replication, sharding, network
+	// diagnostics do): outside the line gate, so even the query-bearing members are KEEP; only
+	// attr.ns / namespace-bearing command fields may change, and only under -w
+	for i := 0; i < pickN(c, 900, 9000); i++ {
+		cs := g.Case(gen.CaseOpts{Comp: "OTHER", Carrier: gen.Carriers[i%3], Msg: []string{"Received command", "Replaying op", "Slow network response", "Command failed"}[i%4]})
+		cs.Line.Walk(nil, func(_ []string, n *jt.Node) {
+			if n.T != nil && (n.T.Role == jt.Sens || n.T.Role == jt.Free || n.T.Role == jt.Ref) {
+				n.T = &jt.Tag{Role: jt.Keep}
+			}
+		})
+		cs.Line.T = &jt.Tag{Role: jt.Keep}
+		it := mkItem(cs, i)
+		it.Kind = "other-with-command"
+		items = append(items, it)
+	}
 	for i, l := range g.CharsetLines() {
 		kind := "other"
 		if l.T == nil {
@@ -120,6 +135,7 @@ func C04() int {
 			}
 		})
 	}
+	reportBatchAnomalies(c)
 	c.Set("distinct_noncanonical_number_literals_in_inputs", len(nonCanon))
 	c.Set("flag_sets", flagNames(fsets))
 	c.Set("race_reports", s.RaceReports())
